@@ -56,6 +56,8 @@ def draw_cfg(st):
                 "p_switch": [0.2, 0.05, 0.5][st.choose(3, "p_switch")],
                 "outcome": st.choose(3, "outcome"), "in_action": st.choose(5, "in_action") != 4,
                 "late_call": bool(st.choose(2, "late_call")),
+                # the function itself (a retry hook, a callback it triggers) invokes the callable it runs under
+                "reentrant": st.choose(3, "reentrant") == 2,
                 "stagger": st.choose(3, "stagger")}
     cfg = {
         "mode": "nodes", "world": "threads", "late_remote": True, "double_preserve": True,
@@ -200,6 +202,17 @@ def run_race(seed, dec, cfg):
         executions.append((x, y, e.current_action()))
         e.log_message(message_type="inside", who=x)
         s.yield_point("in-f")
+        if cfg.get("reentrant") and cfg["in_action"] and len(executions) == 1:
+            rc.probe("callable_invoked_from_inside_its_own_call")
+            try:
+                state["g"](-1)
+                state["reentrant"] = "returned"
+            except TooManyCalls:
+                state["reentrant"] = "too_many"
+            except SimAbort:
+                raise
+            except BaseException as ex:  # noqa
+                state["reentrant"] = "raised %s" % type(ex).__name__
         if cfg["outcome"] == 1:
             raise boom
         if cfg["outcome"] == 2:
@@ -272,6 +285,10 @@ def run_race(seed, dec, cfg):
             if len(executions) != n:
                 raise Violation("executions", "plain f ran %d times for %d calls" % (len(executions), n))
         else:
+            if cfg.get("reentrant") and state.get("reentrant") != "too_many":
+                raise Violation(("call_outcomes", {"reentrant": True}),
+                                "the callable invoked from inside its own (running) call: %s, expected TooManyCalls" % (
+                                    state.get("reentrant"),))
             if len(executions) != 1:
                 raise Violation(("executions", {"n": min(len(executions), 2)}),
                                 "the preserved function ran %d times for %d concurrent calls" % (len(executions), n))
